@@ -65,13 +65,18 @@ Cases16 ==
        wp \in {<<8, P2>>, <<256, P1>>}, m \in {2, 3}, g \in {0, Big}}
   \cup {[w |-> World(Len16, P3), cfg |-> Cfg("hamt", "links", Big, 0, 0, 8, "none", "v0")]}
 Base16 ==
-  {c \in Cases16 : /\ c.cfg.width = 8
-                   /\ \/ /\ c.cfg.stat = "none" /\ c.cfg.est = "links"
-                         /\ <<c.cfg.gthr, c.cfg.thr, c.cfg.maxLinks>> \in {<<75, 0, 0>>, <<Big, 76, 0>>, <<Big, 114, 3>>}
-                      \/ /\ c.cfg.stat = "set" /\ c.cfg.est = "block"       \* 95 + 11 bytes of mode/mtime
-                         /\ <<c.cfg.gthr, c.cfg.thr, c.cfg.maxLinks>> = <<Big, 106, 0>>
-                      \/ c.cfg.est = "disabled" /\ c.cfg.maxLinks = 2}
-One16 == {c \in Base16 : c.cfg.est = "links" /\ c.cfg.gthr = 75}
+  {c \in Cases16 :
+     \/ /\ c.cfg.width = 8
+        /\ \/ /\ c.cfg.stat = "none" /\ c.cfg.est = "links"
+              /\ <<c.cfg.gthr, c.cfg.thr, c.cfg.maxLinks>> \in {<<75, 0, 0>>, <<Big, 76, 0>>, <<Big, 114, 3>>}
+           \/ /\ c.cfg.stat = "set" /\ c.cfg.est = "block"       \* 95 + 11 bytes of mode/mtime
+              /\ <<c.cfg.gthr, c.cfg.thr, c.cfg.maxLinks>> = <<Big, 106, 0>>
+           \/ c.cfg.est = "disabled" /\ c.cfg.maxLinks = 2
+     \* width 256 (2-character slot prefix); replayed WITHOUT ForEachLink in the observations, so that
+     \* link names inside the shard keep their prefix (Dev_C16_OpSizePrefix)
+     \/ /\ c.cfg.width = 256 /\ c.cfg.stat = "none" /\ c.cfg.est = "links"
+        /\ <<c.cfg.gthr, c.cfg.thr, c.cfg.maxLinks>> = <<75, 0, 0>>}
+One16 == {c \in Base16 : c.cfg.est = "links" /\ c.cfg.gthr = 75 /\ c.cfg.width = 8}
 
 (* ---- histories ---- *)
 AddOps == {nt \in Names \X Targets : nt[2] = "T1" \/ nt[1] \in {"a", "b"}}
